@@ -26,7 +26,7 @@ func genC08(t *rapid.T) *c08Case {
 		maxC, maxF = 64, 14
 	}
 	return &c08Case{
-		Seq:     gen.DrawAnimSeq(t, maxC, maxF, 0, []string{"opaque", "binary", "semi-flat", "semi-flat", "levels", "gradient", "noise", "transparent"}),
+		Seq:     gen.DrawAnimSeq(t, maxC, maxF, 0, []string{"opaque", "binary", "semi-flat", "semi-flat", "semi-strip", "semi-strip", "levels", "gradient", "noise", "transparent"}),
 		Quality: rapid.SampledFrom([]int{0, 50, 75, 100}).Draw(t, "quality"),
 	}
 }
